@@ -12,10 +12,11 @@ LEVEL = "exploration"
 SHARDS = {"quick": 8, "thorough": 16}
 RULE = (
     "generated deployments (1-3 generated drivers: 1-3 groups, all five vector kinds, three switch rules, printf and %w.fm number "
-    "formats, initially enabled/disabled groups, vectors and elements, inheritance depth <= 3) plus a fixed driver whose in-process "
-    "SnoopingClient snoops device 0, a real network Client (control + BLOB connection) on fake pipes with independent generated "
+    "formats, initially enabled/disabled groups, vectors and elements, BLOB elements that may hold a payload from the start, "
+    "inheritance depth <= 3; a getProperties for a device name may be routed before that driver is constructed) plus a fixed driver "
+    "whose in-process SnoopingClient snoops device 0 from the start and further devices later in the history, a real network Client (control + BLOB connection) on fake pipes with independent generated "
     "fragmentation of all four byte streams, and histories of <= 25 ops: driver side assign / set_value / bool_value / state_ / "
-    "vector.enabled / group.enabled / selected_value, client side handshake and assign+submit, and settle markers (everything "
+    "vector.enabled / group.enabled / selected_value / re-assignment of the held value (republish), client side handshake and assign+submit, and settle markers (everything "
     "between two markers is in flight together). Oracle at every quiescence point, three-way: (1) expected = property set from the "
     "spec (enabled = vector flag and group flag) with current values read from the drivers' attributes; (2) reference mirror = "
     "harness/refclient.py fed with the elements an independent splitter finds in the raw bytes the server wrote on the control "
